@@ -1,4 +1,5 @@
 import CssVerif.Lemmas.Media
+import CssVerif.Lemmas.MediaSetType
 /-!
 # C17 — media lists are canonical ordered sets; media queries survive intact
 
@@ -204,6 +205,38 @@ theorem accepted_medium_is_good (ts : List Tok) (q : MQ) (h : parseQ {} ts = .ok
     (hc : ∀ t ∈ ts, t.typ ≠ .comment) : GoodQ q :=
   parseQ_goodQ ts q h hc
 
+/-! ## T17.5 — the `mediaType` setter of a query changes the type only (code as of 7e62688) -/
+
+/-- for every query of the grammar and every known media type (any spelling): the setter returns, the new
+`mediaType` is the given string, and the sequence is that of the same query with the type replaced — a query that
+starts with an expression becomes `type and <the same expressions>`. Every expression (feature, value, order) and
+the `only` / `not` keyword are kept, and the result is again a query of the grammar: its tokens parse to it. -/
+theorem setMediaType_changes_type_only (a : QAst) (ha : a.Valid) (raising : Bool) (mt : Cps)
+    (hm : isMediaType mt = true) :
+    a.toMQ.setMediaType raising mt = ({ items := (a.withType mt).toMQ.items, mediaType := mt }, .ret ()) ∧
+    (a.withType mt).exprs = a.exprs ∧ (a.withType mt).pre = a.pre ∧
+    parseQ {} (a.withType mt).toks = .ok (a.withType mt).toMQ :=
+  ⟨setMediaType_ast a ha raising mt hm, withType_exprs a mt, withType_pre a mt,
+   parseQ_ast _ (withType_valid a mt ha hm)⟩
+
+/-- for EVERY query object (comments included, accepted or not) and every argument: comments, value objects,
+parentheses and colons — everything but IDENT tokens — are kept, in order -/
+theorem setMediaType_keeps_non_idents (q : MQ) (raising : Bool) (mt : Cps) :
+    (q.setMediaType raising mt).1.items.filter keptItem = q.items.filter keptItem :=
+  setMediaType_keeps q raising mt
+
+/-- an unknown media type is rejected (SyntaxErr, logged or raised) and nothing changes -/
+theorem setMediaType_unknown_rejected (q : MQ) (raising : Bool) (mt : Cps) (hm : isMediaType mt = false) :
+    q.setMediaType raising mt = (q, if raising then .raised .syntaxErr else .ret ()) := by
+  have hc : Gen.C17Media.mediaTypes.contains (normalize mt) = false := hm
+  unfold MQ.setMediaType; rw [if_neg (by rw [hc]; exact Bool.false_ne_true)]
+
+/-- regression witness of 7e62688: `(color)` with the type `tv` becomes `tv and (color)` (the code before replaced
+the parenthesis by the type) -/
+theorem fixed_setter_leading_expression :
+    ((QAst.untyped ⟨tIdent wColor, none⟩ []).toMQ.setMediaType false wTv).1.toks
+      = [typeTok wTv, setterAndTok, openTok, tIdent wColor, closeTok] := by decide
+
 /-! ## Former known findings, now repaired in the repository (regression witnesses) -/
 
 /-- `/*c*/ tv, print` -/
@@ -269,5 +302,14 @@ example : (QAst.typed (some (tIdent [110, 111, 116])) (tIdent wTv)
     · refine ⟨rfl, by decide, rfl, ?_⟩
       intro v hv; cases hv; exact ⟨.color, by decide⟩
     · exact ⟨rfl, by decide, rfl, by intro v hv; cases hv⟩
+
+/-- the hypotheses of `setMediaType_changes_type_only` are satisfiable, with a prefix and with a leading expression -/
+example : (QAst.typed (some (tIdent [110, 111, 116])) (tIdent wTv) []).Valid ∧
+    (QAst.untyped ⟨tIdent wColor, none⟩ []).Valid ∧ isMediaType wPRINT = true := by
+  refine ⟨⟨?_, rfl, by decide, ?_⟩, ⟨⟨rfl, ?_⟩, ?_⟩, by decide⟩
+  · intro p hp; cases hp; exact ⟨rfl, by decide⟩
+  · intro p hp; cases hp
+  · intro v hv; cases hv
+  · intro p hp; cases hp
 
 end CssVerif.C17
